@@ -172,12 +172,12 @@ Fixpoint shl_after (ch : list msg) (l : list nat) : list nat :=
   | MEnd i :: t => shl_after t (remove_first i l)
   end.
 Definition announced (s : st) : list nat :=
-  match pc s with PZero _ | PStart _ => [] | _ => curl s end.
+  match pc s with PZero _ | PStart _ => [] | PPrepFlag => [0] | _ => curl s end.
 
 Definition cur_ok (s : st) : Prop :=
   match pc s with
   | PZero _ | PStart _ | PTime _ | PWord _ | PBump _ | PCopy _ | PBumpPl _ => exists c, curr s = Some c
-  | PPick _ => curr s = None
+  | PPick _ | PPrepStart | PPrepFlag => curr s = None
   | _ => True
   end.
 Definition partial_ok (single : bool) (s : st) : Prop :=
@@ -191,6 +191,7 @@ Definition partial_ok (single : bool) (s : st) : Prop :=
                      /\ read_at (b_size b + 16) (length (r_pl r)) (b_data b) = r_pl r
       else read_at (b_size b) (length (r_pl r)) (b_data b) = r_pl r
   | PZero _ | PStart _ => b_size b = 0
+  | PPrepStart | PPrepFlag => 0 < length (bufs s) /\ f_rec (b_flag (getb 0 (bufs s))) = false
   | _ => True
   end.
 Definition extra (single : bool) (s : st) : list N :=
@@ -200,6 +201,7 @@ Definition inflight (s : st) : list rec :=
   | PIdle => []
   | PCheck r | PFinish r | PPick r | PZero r | PStart r | PTime r | PWord r | PBump r
   | PCopy r | PBumpPl r => [r]
+  | PDark | PPrepStart | PPrepFlag => []
   end.
 
 Record Inv (single : bool) (recs : list rec) (s : st) : Prop := {
@@ -210,7 +212,7 @@ Record Inv (single : bool) (recs : list rec) (s : st) : Prop := {
   i_part : partial_ok single s;
   i_shl : shl_after (chan s) (shl s) = announced s;
   i_content : exists bs, Matches (done s) bs /\ content s = bs ++ extra single s;
-  i_recs : done s ++ inflight s ++ todo s = recs
+  i_recs : exists rest, done s ++ inflight s ++ todo s ++ rest = recs /\ (pc s <> PDark -> rest = [])
 }.
 
 Lemma body_app l a b : body l (a ++ b) = body l a ++ body l b.
@@ -246,7 +248,20 @@ Proof.
   - exact I.
   - reflexivity.
   - exists []. split; [constructor|destruct single; reflexivity].
+  - exists []. split; [rewrite app_nil_r; reflexivity | reflexivity].
+Qed.
+
+Lemma init0_inv single recs : Inv single recs (init0 recs).
+Proof.
+  constructor; cbn.
+  - constructor.
+  - intros i [].
+  - intros [|[|[|i]]]; cbn; reflexivity.
   - reflexivity.
+  - split; [lia|reflexivity].
+  - reflexivity.
+  - exists []. split; [constructor|destruct single; reflexivity].
+  - exists []. split; [rewrite app_nil_r; reflexivity | reflexivity].
 Qed.
 
 (* ------------------------------------------------------------------ recorder steps *)
@@ -309,10 +324,14 @@ Qed.
 Lemma partial_ok_ext single s s' :
   pc s' = pc s -> curr s' = curr s ->
   (forall c, curr s = Some c -> getb c (bufs s') = getb c (bufs s)) ->
+  (f_rec (b_flag (getb 0 (bufs s))) = false -> getb 0 (bufs s') = getb 0 (bufs s)) ->
+  length (bufs s') = length (bufs s) ->
   cur_ok s -> partial_ok single s -> partial_ok single s'.
 Proof.
-  intros Hpc Hc Hb Hcur Hp. unfold partial_ok, cur_ok, cur_buf in *. rewrite Hpc, Hc.
-  destruct (pc s); try exact I; destruct Hcur as [c Ec]; rewrite Ec in *; rewrite (Hb c eq_refl); exact Hp.
+  intros Hpc Hc Hb H0 Hlen Hcur Hp. unfold partial_ok, cur_ok, cur_buf in *. rewrite Hpc, Hc, Hlen.
+  destruct (pc s); try exact I;
+    try (destruct Hp as [Hp1 Hp2]; rewrite (H0 Hp2); split; assumption);
+    destruct Hcur as [c Ec]; rewrite Ec in *; rewrite (Hb c eq_refl); exact Hp.
 Qed.
 
 Lemma wstep_inv single recs s : Inv single recs s -> Inv single recs (wstep s) /\ content (wstep s) = content s.
@@ -345,7 +364,11 @@ Proof.
     + rewrite getb_upd_other by exact Hne. apply Hfree.
   - unfold s', write_one, cur_ok in *. simp. exact Hcur.
   - apply (partial_ok_ext single s); try reflexivity; try assumption.
-    intros c Ec. apply Hb. unfold rest, curl. rewrite Ec. apply in_or_app. right. apply in_or_app. right. left. reflexivity.
+    + intros c Ec. apply Hb. unfold rest, curl. rewrite Ec. apply in_or_app. right. apply in_or_app. right. left. reflexivity.
+    + intro H0. unfold s', write_one. simp. apply getb_upd_other. intro E0. subst i.
+      assert (Hi0 : In 0 (pend s)) by (rewrite Hpend; left; reflexivity).
+      destruct (Hrec 0 Hi0) as [_ Hf0]. congruence.
+    + unfold s', write_one. simp. apply upd_length.
   - unfold s', write_one, announced, curl in *. simp. exact Hshl.
   - rewrite Hc. unfold s', write_one, extra. simp. exact Hcont.
   - unfold s', write_one, inflight. simp. exact Hrecs.
@@ -414,13 +437,19 @@ Ltac open_inv HI Epc :=
   unfold cur_ok, partial_ok, announced, extra, inflight in Hcur, Hpart, Hshl, Hcont, Hrecs;
   rewrite Epc in Hcur, Hpart, Hshl, Hcont, Hrecs.
 Ltac close_fields := unfold cur_ok, partial_ok, announced, extra, inflight; simp.
+(* the i_recs field: same records, the new pc is not PDark *)
+Ltac keep_recs H :=
+  let rest := fresh "rest" in let Hr := fresh "Hr" in let Hd := fresh "Hd" in
+  destruct H as [rest [Hr Hd]]; exists rest; split;
+  [ first [ exact Hr | rewrite <- Hr; rewrite <- ?app_assoc; reflexivity ]
+  | intros _; apply Hd; discriminate ].
 
 Lemma p_idle single recs cap s : pc s = PIdle -> Inv single recs s -> Inv single recs (pstep single cap s).
 Proof.
   intros Epc HI. unfold pstep. rewrite Epc. destruct (todo s) as [|r t] eqn:Et; [exact HI|].
   open_inv HI Epc.
   constructor; close_fields; try assumption; try exact I.
-  rewrite Et in Hrecs. exact Hrecs.
+  rewrite Et in Hrecs. keep_recs Hrecs.
 Qed.
 
 Lemma p_check single recs cap s r : pc s = PCheck r -> Inv single recs s -> Inv single recs (pstep single cap s).
@@ -428,9 +457,9 @@ Proof.
   intros Epc HI. unfold pstep. rewrite Epc. open_inv HI Epc.
   destruct (curr s) as [c|] eqn:Ec.
   - destruct (cap <? b_size (getb c (bufs s)) + rsize r);
-      constructor; close_fields; try assumption; try exact I.
+      constructor; close_fields; try assumption; try exact I; try (keep_recs Hrecs).
     exists c. exact Ec.
-  - constructor; close_fields; try assumption; try exact I.
+  - constructor; close_fields; try assumption; try exact I; try (keep_recs Hrecs).
 Qed.
 
 Lemma p_finish single recs cap s r : pc s = PFinish r -> Inv single recs s -> Inv single recs (pstep single cap s).
@@ -441,9 +470,9 @@ Proof.
     assert (Hp : pend s' = pend s).
     { unfold pend, others, curl, s'. simp. rewrite Ec, ends_app. cbn. rewrite app_nil_r, <- app_assoc. reflexivity. }
     assert (Hc : content s' = content s) by (unfold content; rewrite Hp; reflexivity).
-    constructor; try (rewrite Hp); try (rewrite Hc); subst s'; close_fields; try assumption; try reflexivity.
+    constructor; try (rewrite Hp); try (rewrite Hc); subst s'; close_fields; try assumption; try reflexivity; try (keep_recs Hrecs).
     rewrite shl_after_app, Hshl. unfold curl. rewrite Ec. cbn. rewrite Nat.eqb_refl. reflexivity.
-  - constructor; close_fields; try assumption; try exact I.
+  - constructor; close_fields; try assumption; try exact I; try (keep_recs Hrecs).
 Qed.
 
 Lemma p_start single recs cap s r : pc s = PStart r -> Inv single recs s -> Inv single recs (pstep single cap s).
@@ -454,7 +483,7 @@ Proof.
   assert (Hp : pend s' = pend s).
   { unfold pend, others, curl, s'. simp. rewrite ends_app. cbn. rewrite app_nil_r. reflexivity. }
   assert (Hc : content s' = content s) by (unfold content; rewrite Hp; reflexivity).
-  constructor; try (rewrite Hp); try (rewrite Hc); subst s'; close_fields; try assumption; try exact I.
+  constructor; try (rewrite Hp); try (rewrite Hc); subst s'; close_fields; try assumption; try exact I; try (keep_recs Hrecs).
   - exists c. exact Ec.
   - rewrite shl_after_app, Hshl. unfold curl, cur_buf. simp. rewrite Ec. reflexivity.
 Qed.
@@ -472,7 +501,7 @@ Proof.
   set (f := fun b => set_data (write_at (b_size b) (le64 (r_time r)) (b_data b)) b).
   destruct (on_cur_core single recs s c f HI Ec (fun b => eq_refl)) as [H1 [H2 [H3 [Hg Hc]]]].
   destruct (cur_facts single recs s c HI Ec) as [_ [_ [_ [_ [_ Hcs]]]]].
-  constructor; close_fields; try assumption; try exact I.
+  constructor; close_fields; try assumption; try exact I; try (keep_recs Hrecs).
   - exists c. exact Ec.
   - replace (cur_buf _) with c by (unfold cur_buf; cbn; rewrite Ec; reflexivity).
     change (bufs (with_pc _ (on_cur f s))) with (bufs (on_cur f s)). rewrite Hg. unfold f. cbn [b_size b_data b_flag set_data set_size].
@@ -490,7 +519,7 @@ Proof.
   destruct (on_cur_core single recs s c f HI Ec (fun b => eq_refl)) as [H1 [H2 [H3 [Hg Hc]]]].
   destruct (cur_facts single recs s c HI Ec) as [_ [_ [_ [_ [_ Hcs]]]]].
   rewrite (cur_buf_eq s c Ec) in Hpart.
-  constructor; close_fields; try assumption; try exact I.
+  constructor; close_fields; try assumption; try exact I; try (keep_recs Hrecs).
   - exists c. exact Ec.
   - replace (cur_buf _) with c by (unfold cur_buf; cbn; rewrite Ec; reflexivity).
     change (bufs (with_pc _ (on_cur f s))) with (bufs (on_cur f s)). rewrite Hg. unfold f. cbn [b_size b_data b_flag set_data set_size].
@@ -510,7 +539,7 @@ Proof.
   destruct (on_cur_core single recs s c f HI Ec (fun b => eq_refl)) as [H1 [H2 [H3 [Hg Hc]]]].
   destruct (cur_facts single recs s c HI Ec) as [_ [_ [_ [_ [_ Hcs]]]]].
   rewrite (cur_buf_eq s c Ec) in Hpart.
-  constructor; close_fields; try assumption; try exact I.
+  constructor; close_fields; try assumption; try exact I; try (keep_recs Hrecs).
   - exists c. exact Ec.
   - replace (cur_buf _) with c by (unfold cur_buf; cbn; rewrite Ec; reflexivity).
     change (bufs (with_pc _ (on_cur f s))) with (bufs (on_cur f s)). rewrite Hg. unfold f.
@@ -546,22 +575,21 @@ Proof.
   destruct (has_pl r) eqn:Epl.
   - destruct single.
     + (* repaired code: nothing is counted yet *)
-      constructor; close_fields; try assumption; try exact I.
+      constructor; close_fields; try assumption; try exact I; try (keep_recs Hrecs).
       * exists c. exact Ec.
       * replace (cur_buf _) with c by (unfold cur_buf; cbn; rewrite Ec; reflexivity). exact Hpart.
       * exists bs. split; [exact Hm|]. change (content (with_pc (PCopy r) s)) with (content s).
         rewrite Hcb'. symmetry. apply app_nil_r.
-    + constructor; close_fields; try assumption; try exact I.
+    + constructor; close_fields; try assumption; try exact I; try (keep_recs Hrecs).
       * exists c. exact Ec.
       * exists bs. split; [exact Hm|].
         change (content (with_pc (PCopy r) (on_cur f s))) with (content (on_cur f s)).
         rewrite Hc', Hcb'. reflexivity.
-  - constructor; close_fields; try assumption; try exact I.
+  - constructor; close_fields; try assumption; try exact I; try (keep_recs Hrecs).
     + exists (bs ++ hdr r). split.
       * apply Matches_snoc; [exact Hm|]. exists []. rewrite (has_pl_false r Epl). split; reflexivity.
       * change (content (with_pc PIdle (with_done (done s ++ [r]) (on_cur f s)))) with (content (on_cur f s)).
         rewrite Hc', Hcb'. destruct single; symmetry; apply app_nil_r.
-    + rewrite <- Hrecs, <- app_assoc. reflexivity.
 Qed.
 
 Lemma p_bumppl single recs cap s r : pc s = PBumpPl r -> Inv single recs s -> Inv single recs (pstep single cap s).
@@ -585,26 +613,24 @@ Proof.
       replace (align8 n) with (n + (align8 n - n)) at 1 by (pose proof (align8_ge n); lia).
       rewrite read_at_app, Hp, <- !app_assoc. reflexivity. }
     rewrite app_nil_r in Hcb.
-    constructor; close_fields; try assumption; try exact I.
+    constructor; close_fields; try assumption; try exact I; try (keep_recs Hrecs).
     + exists (bs ++ hdr r ++ r_pl r ++ pad). split.
       * apply Matches_snoc; [exact Hm|]. exists pad. split; [reflexivity|].
         unfold pad. rewrite read_at_length. reflexivity.
       * change (content (with_pc PIdle (with_done (done s ++ [r]) (on_cur f s)))) with (content (on_cur f s)).
         rewrite Hc', Hcb, app_nil_r. reflexivity.
-    + rewrite <- Hrecs, <- app_assoc. reflexivity.
   - fold n in Hpart.
     set (pad := read_at (b_size b + n) (align8 n - n) (b_data b)).
     assert (Hc' : content (on_cur f s) = content s ++ r_pl r ++ pad).
     { rewrite Hc, Hcs. unfold f. rewrite Nat.add_0_r, committed_grow.
       replace (align8 n) with (n + (align8 n - n)) at 1 by (pose proof (align8_ge n); lia).
       rewrite read_at_app, Hpart, app_assoc. reflexivity. }
-    constructor; close_fields; try assumption; try exact I.
+    constructor; close_fields; try assumption; try exact I; try (keep_recs Hrecs).
     + exists (bs ++ hdr r ++ r_pl r ++ pad). split.
       * apply Matches_snoc; [exact Hm|]. exists pad. split; [reflexivity|].
         unfold pad. rewrite read_at_length. reflexivity.
       * change (content (with_pc PIdle (with_done (done s ++ [r]) (on_cur f s)))) with (content (on_cur f s)).
         rewrite Hc', Hcb, app_nil_r, <- !app_assoc. reflexivity.
-    + rewrite <- Hrecs, <- app_assoc. reflexivity.
 Qed.
 
 Lemma NoDup_snoc {A} (l : list A) x : NoDup l -> ~ In x l -> NoDup (l ++ [x]).
@@ -662,7 +688,7 @@ Proof.
       change (pend (on_cur _ _)) with (pend s). rewrite Hl1. fold l1.
       apply body_ext. intros i Hi. apply S1. exact Hi.
     - rewrite Hc, Hcs. f_equal. unfold committed. cbn. rewrite Hpart. reflexivity. }
-  constructor; try (rewrite Hc'); subst s'; close_fields; try assumption; try exact I.
+  constructor; try (rewrite Hc'); subst s'; close_fields; try assumption; try exact I; try (keep_recs Hrecs).
   - intros i Hi. destruct (S1 i Hi) as [Sa Sb]. split; [exact Sa|]. rewrite Sb. apply H2. exact Hi.
   - exists c. exact Ec.
   - replace (cur_buf _) with c by (unfold cur_buf; cbn; rewrite Ec; reflexivity).
@@ -707,7 +733,7 @@ Proof.
     rewrite (committed_size0 (g (getb i l))) by (unfold g; cbn; apply Hib).
     rewrite app_nil_r, body_upd_notin by exact Hni.
     apply body_ext. intros j Hj. apply Hjl. intro; subst; contradiction. }
-  constructor; try (rewrite Hc'); try (rewrite Hp'); subst s'; close_fields; try assumption; try exact I.
+  constructor; try (rewrite Hc'); try (rewrite Hp'); subst s'; close_fields; try assumption; try exact I; try (keep_recs Hrecs).
   - apply NoDup_snoc; [rewrite <- Hpe; exact Hnd | exact Hni].
   - intros j Hj. rewrite upd_length. apply in_app_or in Hj. destruct Hj as [Hj|[<-|[]]].
     + assert (Hne : i <> j) by (intro; subst; contradiction).
@@ -720,6 +746,47 @@ Proof.
   - exists i. reflexivity.
   - replace (cur_buf _) with i by reflexivity. rewrite Hgi. unfold g. cbn. apply Hib.
   - rewrite Hshl. unfold curl. rewrite Hcur. reflexivity.
+Qed.
+
+(* thread set-up: REC_START for buffer 0, then its flag *)
+Lemma p_prepstart single recs cap s : pc s = PPrepStart -> Inv single recs s -> Inv single recs (pstep single cap s).
+Proof.
+  intros Epc HI. unfold pstep. rewrite Epc. open_inv HI Epc.
+  set (s' := with_pc PPrepFlag (with_chan (chan s ++ [MStart 0]) s)).
+  assert (Hp : pend s' = pend s).
+  { unfold pend, others, curl, s'. simp. rewrite ends_app. cbn. rewrite app_nil_r. reflexivity. }
+  assert (Hc : content s' = content s) by (unfold content; rewrite Hp; reflexivity).
+  constructor; try (rewrite Hp); try (rewrite Hc); subst s'; close_fields; try assumption; try exact I;
+    try (keep_recs Hrecs).
+  rewrite shl_after_app, Hshl. unfold curl. rewrite Hcur. reflexivity.
+Qed.
+
+Lemma p_prepflag single recs cap s : pc s = PPrepFlag -> Inv single recs s -> Inv single recs (pstep single cap s).
+Proof.
+  intros Epc HI. unfold pstep. rewrite Epc. open_inv HI Epc. destruct Hpart as [Hl0 Hf0].
+  set (g := set_flag {| f_new := true; f_written := false; f_rec := true |}).
+  set (s' := with_pc PIdle (with_curr (Some 0) (with_bufs (upd 0 g (bufs s)) s))).
+  assert (Hpe : pend s = others s) by (unfold pend, curl; rewrite Hcur; apply app_nil_r).
+  assert (Hni : ~ In 0 (others s)).
+  { intro Hin. rewrite <- Hpe in Hin. destruct (Hrec 0 Hin) as [_ Hf]. congruence. }
+  assert (Hp' : pend s' = others s ++ [0]) by reflexivity.
+  assert (Hg0 : getb 0 (upd 0 g (bufs s)) = g (getb 0 (bufs s))) by (apply getb_upd_same; exact Hl0).
+  assert (Hsz : b_size (getb 0 (bufs s)) = 0) by (apply Hfree; exact Hf0).
+  assert (Hc' : content s' = content s).
+  { unfold content. rewrite Hp', Hpe. unfold s'. simp. f_equal.
+    rewrite body_app, body_one, Hg0.
+    rewrite (committed_size0 (g (getb 0 (bufs s)))) by (unfold g; cbn; exact Hsz).
+    rewrite app_nil_r. apply body_upd_notin. exact Hni. }
+  constructor; try (rewrite Hc'); try (rewrite Hp'); subst s'; close_fields; try assumption; try exact I;
+    try (keep_recs Hrecs).
+  - apply NoDup_snoc; [rewrite <- Hpe; exact Hnd | exact Hni].
+  - intros j Hj. rewrite upd_length. apply in_app_or in Hj. destruct Hj as [Hj|[<-|[]]].
+    + assert (Hne : 0 <> j) by (intro; subst; contradiction).
+      rewrite getb_upd_other by exact Hne. apply Hrec. rewrite Hpe. exact Hj.
+    + split; [exact Hl0|]. rewrite Hg0. reflexivity.
+  - intros j. destruct (Nat.eq_dec 0 j) as [<-|Hne].
+    + rewrite Hg0. unfold g. cbn. discriminate.
+    + rewrite getb_upd_other by exact Hne. apply Hfree.
 Qed.
 
 Lemma pstep_inv single recs cap s : Inv single recs s -> Inv single recs (pstep single cap s).
@@ -736,6 +803,73 @@ Proof.
   - eapply p_bump; eassumption.
   - eapply p_copy; eassumption.
   - eapply p_bumppl; eassumption.
+  - apply p_prepstart; assumption.
+  - apply p_prepflag; assumption.
+  - unfold pstep. rewrite Epc. exact HI.
+Qed.
+
+(* the i_recs field when the thread goes dark: everything not yet stored is dropped *)
+Ltac dark_recs H :=
+  let rest := fresh "rest" in let Hr := fresh "Hr" in let Hd := fresh "Hd" in
+  destruct H as [rest [Hr Hd]]; eexists; split;
+  [ rewrite <- Hr; cbn [app]; reflexivity
+  | let Hne := fresh "Hne" in intro Hne; exfalso; apply Hne; reflexivity ].
+
+(* the pipe is closed and the current buffer is full: REC_END is lost, the buffer stays announced *)
+Lemma dark_finish single recs s r :
+  pc s = PFinish r -> Inv single recs s -> Inv single recs (with_pc PDark (with_todo [] s)).
+Proof.
+  intros Epc HI. open_inv HI Epc.
+  constructor; close_fields; try assumption; try exact I; try (destruct single; exact Hcont); try (cbn [app]; dark_recs Hrecs).
+Qed.
+
+(* the pipe is closed before REC_START of a new (empty) buffer went out: the buffer stays unknown *)
+Lemma dark_start single recs s r :
+  pc s = PStart r -> Inv single recs s -> Inv single recs (with_pc PDark (with_todo [] (with_curr None s))).
+Proof.
+  intros Epc HI. open_inv HI Epc. destruct Hcur as [c Ec].
+  destruct (cur_facts single recs s c HI Ec) as [Hp [Hni [Hndo [Hl [Hfc Hcs]]]]].
+  rewrite (cur_buf_eq s c Ec) in Hpart.
+  set (s' := with_pc PDark (with_todo [] (with_curr None s))).
+  assert (Hp' : pend s' = others s) by (unfold pend, curl, s'; simp; apply app_nil_r).
+  assert (Hc' : content s' = content s).
+  { unfold content at 1. rewrite Hp'. rewrite Hcs. unfold pre, s'. simp.
+    rewrite (committed_size0 _ Hpart), app_nil_r. reflexivity. }
+  constructor; try (rewrite Hp'); try (rewrite Hc'); subst s'; close_fields; try assumption; try exact I; try (destruct single; exact Hcont); try (cbn [app]; dark_recs Hrecs).
+  all: try (intros i Hi; apply Hrec; rewrite Hp; apply in_or_app; left; exact Hi).
+  all: try (unfold curl; simp; exact Hshl).
+Qed.
+
+(* the pipe was closed before the thread's first REC_START: the recorder never hears of the thread *)
+Lemma dark_prep single recs s :
+  pc s = PPrepStart -> Inv single recs s -> Inv single recs (with_pc PDark (with_todo [] s)).
+Proof.
+  intros Epc HI. open_inv HI Epc.
+  constructor; close_fields; try assumption; try exact I; try (destruct single; exact Hcont); try (cbn [app]; dark_recs Hrecs).
+Qed.
+
+Lemma pstep_closed_inv single recs cap s : Inv single recs s -> Inv single recs (pstep_closed single cap s).
+Proof.
+  intro HI. unfold pstep_closed. destruct (pc s) eqn:Epc; try (apply pstep_inv; exact HI).
+  - eapply dark_finish; eassumption.
+  - eapply dark_start; eassumption.
+  - eapply dark_prep; eassumption.
+Qed.
+
+(* mtd_dtor between two hook calls *)
+Lemma dstep_inv single recs closed s : Inv single recs s -> Inv single recs (dstep closed s).
+Proof.
+  intro HI. unfold dstep. destruct (pc s) eqn:Epc; try exact HI.
+  open_inv HI Epc. destruct closed.
+  - constructor; close_fields; try assumption; try exact I; try (destruct single; exact Hcont); try (cbn [app]; dark_recs Hrecs).
+  - unfold pend_thread. destruct (curr s) as [c|] eqn:Ec.
+    + set (s' := with_pc PDark (with_todo [] (with_curr None (with_chan (chan s ++ [MEnd c]) s)))).
+      assert (Hp : pend s' = pend s).
+      { unfold pend, others, curl, s'. simp. rewrite Ec, ends_app. cbn. rewrite app_nil_r, <- app_assoc. reflexivity. }
+      assert (Hc : content s' = content s) by (unfold content; rewrite Hp; reflexivity).
+      constructor; try (rewrite Hp); try (rewrite Hc); subst s'; close_fields; try assumption; try exact I; try (destruct single; exact Hcont); try (cbn [app]; dark_recs Hrecs).
+      * rewrite shl_after_app, Hshl. unfold curl. simp. rewrite Ec. cbn. rewrite Nat.eqb_refl. reflexivity.
+    + constructor; close_fields; try assumption; try exact I; try (destruct single; exact Hcont); try (cbn [app]; dark_recs Hrecs).
 Qed.
 
 Lemma step_inv single recs cap l s : Inv single recs s -> Inv single recs (step single cap l s).
@@ -744,6 +878,9 @@ Proof.
   - apply pstep_inv. exact HI.
   - apply rstep_inv. exact HI.
   - apply wstep_inv. exact HI.
+  - apply pstep_closed_inv. exact HI.
+  - apply dstep_inv. exact HI.
+  - apply dstep_inv. exact HI.
 Qed.
 
 Lemma run_inv single recs cap sched s : Inv single recs s -> Inv single recs (run single cap sched s).
@@ -779,11 +916,14 @@ Qed.
 
 Lemma announced_cases single recs s :
   Inv single recs s ->
-  (announced s = [] /\ body (bufs s) (curl s) = []) \/ (exists c, announced s = [c] /\ curr s = Some c).
+  (announced s = [] /\ body (bufs s) (curl s) = []) \/ (exists c, announced s = [c] /\ curr s = Some c)
+  \/ (announced s = [0] /\ curr s = None /\ f_rec (b_flag (getb 0 (bufs s))) = false).
 Proof.
   intros [_ _ _ Hcur Hpart _ _ _]. unfold announced, curl, cur_ok, partial_ok, cur_buf in *.
-  destruct (pc s); destruct (curr s) as [c|] eqn:Ec;
-    try (right; exists c; split; reflexivity); try (left; split; reflexivity);
+  destruct (pc s) eqn:Epc; destruct (curr s) as [c|] eqn:Ec;
+    try (right; left; exists c; split; reflexivity); try (left; split; reflexivity);
+    try discriminate;
+    try (right; right; split; [reflexivity|]; split; [reflexivity|]; apply Hpart);
     left; (split; [reflexivity|]); rewrite body_one; apply committed_size0; exact Hpart.
 Qed.
 
@@ -803,7 +943,7 @@ Proof.
   rewrite Hch in Hshl. cbn in Hshl.
   assert (Hp : pend s = wl s ++ curl s) by (unfold pend, others; rewrite Hch; cbn; rewrite app_nil_r; reflexivity).
   unfold flush_shmem_list. rewrite Hshl.
-  destruct (announced_cases single recs s HI) as [[Ha Hb]|[c [Ha Ec]]]; rewrite Ha; cbn [fold_left]; simp.
+  destruct (announced_cases single recs s HI) as [[Ha Hb]|[[c [Ha Ec]]|[Ha [Ec Hf0]]]]; rewrite Ha; cbn [fold_left]; simp.
   - split; [reflexivity|]. split; [reflexivity|]. split.
     + rewrite Hp in Hnd. apply NoDup_app_l in Hnd. exact Hnd.
     + rewrite Hp, body_app, Hb, app_nil_r. reflexivity.
@@ -817,6 +957,11 @@ Proof.
       * rewrite Hp in Hnd. apply NoDup_app_l in Hnd. exact Hnd.
       * apply Nat.eqb_eq in Ez. rewrite Hp, body_app, body_one, (committed_size0 _ Ez), app_nil_r. reflexivity.
     + split; [reflexivity|]. split; [reflexivity|]. rewrite <- Hp. split; [exact Hnd|reflexivity].
+  - (* thread set-up: buffer 0 is announced but not yet RECORDING: record_mmap_file skips it *)
+    unfold queue_if. simp. rewrite Hf0. cbn [andb].
+    assert (Hcl : curl s = []) by (unfold curl; rewrite Ec; reflexivity).
+    rewrite Hcl, app_nil_r in Hp. simp.
+    split; [reflexivity|]. split; [reflexivity|]. rewrite <- Hp. split; [exact Hnd|reflexivity].
 Qed.
 
 Lemma write_all W : forall s, NoDup W ->
@@ -842,15 +987,23 @@ Proof.
 Qed.
 
 (* ------------------------------------------------------------------ the theorems *)
-Theorem prefix_general single cap recs sched :
-  let s := run single cap sched (init recs) in
+(* where a thread's history starts: before its first hook call set it up (`true`: prepare_shmem_buffer is
+   part of the schedule) or right after *)
+Definition start (setup : bool) (recs : list rec) : st := if setup then init0 recs else init recs.
+Lemma start_inv setup single recs : Inv single recs (start setup recs).
+Proof. destruct setup; [apply init0_inv | apply init_inv]. Qed.
+Lemma init_is_two_steps single cap recs : init recs = run single cap [LP; LP] (init0 recs).
+Proof. reflexivity. Qed.
+
+Theorem prefix_general setup single cap recs sched :
+  let s := run single cap sched (start setup recs) in
   exists bs rest,
     Matches (done s) bs /\ file (finish s) = bs ++ extra single s /\ recs = done s ++ rest.
 Proof.
-  intro s. pose proof (run_inv single recs cap sched (init recs) (init_inv single recs)) as HI. fold s in HI.
+  intro s. pose proof (run_inv single recs cap sched (start setup recs) (start_inv setup single recs)) as HI. fold s in HI.
   rewrite (finish_file single recs s HI).
-  destruct HI as [_ _ _ _ _ _ [bs [Hm Hc]] Hrecs].
-  exists bs, (inflight s ++ todo s). split; [exact Hm|]. split; [exact Hc|]. symmetry. exact Hrecs.
+  destruct HI as [_ _ _ _ _ _ [bs [Hm Hc]] [rest0 [Hrecs _]]].
+  exists bs, (inflight s ++ todo s ++ rest0). split; [exact Hm|]. split; [exact Hc|]. symmetry. exact Hrecs.
 Qed.
 
 Lemma extra_window single s : in_window single s = false -> extra single s = [].
@@ -858,14 +1011,14 @@ Proof. unfold in_window, extra. destruct single; [reflexivity|]. destruct (pc s)
 
 (* outside the window: the file is exactly the sequence of the completely stored records,
    which is a prefix of what the thread was going to write *)
-Theorem prefix_outside_window single cap recs sched :
-  let s := run single cap sched (init recs) in
+Theorem prefix_outside_window setup single cap recs sched :
+  let s := run single cap sched (start setup recs) in
   in_window single s = false ->
   match_recs (done s) (file (finish s)) = true
   /\ (exists rest, recs = done s ++ rest)
   /\ ok_prefix recs (file (finish s)) = true.
 Proof.
-  intros s Hw. destruct (prefix_general single cap recs sched) as [bs [rest [Hm [Hf Hr]]]]. fold s in Hm, Hf, Hr.
+  intros s Hw. destruct (prefix_general setup single cap recs sched) as [bs [rest [Hm [Hf Hr]]]]. fold s in Hm, Hf, Hr.
   rewrite (extra_window single s Hw), app_nil_r in Hf.
   assert (Hmr : match_recs (done s) (file (finish s)) = true) by (rewrite Hf; apply Matches_match_recs; exact Hm).
   split; [exact Hmr|]. split; [exists rest; exact Hr|].
@@ -879,45 +1032,46 @@ Proof.
 Qed.
 
 (* the code as it is (one size update per record, fix 4751e05) has no window at all *)
-Theorem prefix_fixed cap recs sched :
-  let s := run true cap sched (init recs) in
+Theorem prefix_fixed setup cap recs sched :
+  let s := run true cap sched (start setup recs) in
   match_recs (done s) (file (finish s)) = true
   /\ (exists rest, recs = done s ++ rest)
   /\ ok_prefix recs (file (finish s)) = true.
-Proof. intro s. apply (prefix_outside_window true cap recs sched). reflexivity. Qed.
+Proof. intro s. apply (prefix_outside_window setup true cap recs sched). reflexivity. Qed.
 
 (* inside the window: the same, followed by the bare 16-byte header of the record in flight *)
-Theorem window_exact cap recs sched :
-  let s := run false cap sched (init recs) in
+Theorem window_exact setup cap recs sched :
+  let s := run false cap sched (start setup recs) in
   in_window false s = true ->
   exists r bs rest, (pc s = PCopy r \/ pc s = PBumpPl r) /\
     Matches (done s) bs /\ file (finish s) = bs ++ hdr r /\ recs = done s ++ r :: rest.
 Proof.
-  intros s Hw. pose proof (run_inv false recs cap sched (init recs) (init_inv false recs)) as HI. fold s in HI.
+  intros s Hw. pose proof (run_inv false recs cap sched (start setup recs) (start_inv setup false recs)) as HI. fold s in HI.
   rewrite (finish_file false recs s HI).
-  destruct HI as [_ _ _ _ _ _ [bs [Hm Hc]] Hrecs].
+  destruct HI as [_ _ _ _ _ _ [bs [Hm Hc]] [rest0 [Hrecs _]]].
   unfold in_window in Hw. unfold extra in Hc. unfold inflight in Hrecs. cbn [negb andb] in Hw.
-  destruct (pc s) as [| | | | | | | | |r|r] eqn:Epc; try discriminate;
-    exists r, bs, (todo s); (split; [auto|]); (split; [exact Hm|]); (split; [exact Hc|]); symmetry; exact Hrecs.
+  destruct (pc s) as [| | | | | | | | |r|r| | |] eqn:Epc; try discriminate;
+    exists r, bs, (todo s ++ rest0); (split; [auto|]); (split; [exact Hm|]); (split; [exact Hc|]); symmetry; exact Hrecs.
 Qed.
 
 (* a complete run (every record stored): the file holds all records *)
-Theorem complete_run single cap recs sched :
-  let s := run single cap sched (init recs) in
+Theorem complete_run setup single cap recs sched :
+  let s := run single cap sched (start setup recs) in
   pc s = PIdle -> todo s = [] -> match_recs recs (file (finish s)) = true.
 Proof.
-  intros s Hpc Ht. pose proof (run_inv single recs cap sched (init recs) (init_inv single recs)) as HI. fold s in HI.
-  destruct (prefix_outside_window single cap recs sched) as [Hm _].
+  intros s Hpc Ht. pose proof (run_inv single recs cap sched (start setup recs) (start_inv setup single recs)) as HI. fold s in HI.
+  destruct (prefix_outside_window setup single cap recs sched) as [Hm _].
   { unfold in_window. fold s. rewrite Hpc. apply andb_false_r. }
-  fold s in Hm. destruct HI as [_ _ _ _ _ _ _ Hrecs]. unfold inflight in Hrecs. rewrite Hpc, Ht in Hrecs.
+  fold s in Hm. destruct HI as [_ _ _ _ _ _ _ [rest0 [Hrecs Hd]]]. unfold inflight in Hrecs. rewrite Hpc, Ht in Hrecs.
+  rewrite Hd in Hrecs by (rewrite Hpc; discriminate).
   cbn in Hrecs. rewrite app_nil_r in Hrecs. rewrite <- Hrecs. exact Hm.
 Qed.
 
-Theorem prefix_general_now cap recs sched :
-  let s := run true cap sched (init recs) in
+Theorem prefix_general_now setup cap recs sched :
+  let s := run true cap sched (start setup recs) in
   exists rest, Matches (done s) (file (finish s)) /\ recs = done s ++ rest.
 Proof.
-  intro s. destruct (prefix_general true cap recs sched) as [bs [rest [Hm [Hf Hr]]]]. fold s in Hm, Hf, Hr.
+  intro s. destruct (prefix_general setup true cap recs sched) as [bs [rest [Hm [Hf Hr]]]]. fold s in Hm, Hf, Hr.
   cbn [extra] in Hf. rewrite app_nil_r in Hf. exists rest. rewrite Hf. split; assumption.
 Qed.
 
